@@ -7,22 +7,20 @@ import os
 VERIF = os.path.dirname(os.path.dirname(os.path.abspath(__file__)))
 ALL = [f"C{n:02d}" for n in range(1, 21)]
 
-# property -> (technique, level text, level note, design ref)
-CHECKS: dict[str, tuple[str, str, str, str]] = {
-    "C01": (
-        "Coq proof over a table generated from status.py + exhaustive differential correspondence",
-        "Machine-checked theorems (Props/C01.v): the table regenerated from status.py:_CONFIG on every run, run through the "
-        "mirror of status_record_transition, equals the hand-transcribed documented single step for ALL records/requests/"
-        "requesters; finals absorbing; ownership enforced; owner-after rule; refused change leaves the system unchanged; for "
-        "EVERY operation sequence the successful changes of each invocation form a documented path from REGISTERED (induction "
-        "over the op list). Tie: the complete (15x3)x(14x3) single-step space is executed on the pure function, MemOrchestrator "
-        "and SQLiteOrchestrator through set_invocation_status and compared with model and specification; sequences exhaustive "
-        "to a short length + seeded random walks on both backends.",
-        "Trusted: Coq kernel; AST translator of _CONFIG (fail-closed); hand mirror of the three status.py functions (tied by the "
-        "exhaustive single-step run + AST shape hash); runner universe {none,r1,r2} in the correspondence; state injection into "
-        "the backends' stores for unreachable (status, owner) combinations.",
-        "DESIGN.md §6 C01"),
-}
+def discover() -> dict[str, tuple[str, str, str, str]]:
+    """Each harness/props/cXX.py that defines MANIFEST = {technique, text, note, design_ref} is a claimed check."""
+    import glob
+    import importlib
+    out = {}
+    for f in sorted(glob.glob(os.path.join(VERIF, "harness", "props", "c[0-9][0-9].py"))):
+        name = os.path.basename(f)[:-3]
+        m = getattr(importlib.import_module("harness.props." + name), "MANIFEST", None)
+        if m:
+            out[name.upper()] = (m["technique"], m["text"], m["note"], m["design_ref"])
+    return out
+
+
+CHECKS = discover()
 
 NOT_YET = "check not built yet in this session (work in progress; see DESIGN.md §6 for the planned model and tie)"
 
